@@ -313,7 +313,35 @@ def _reorder_shard_g(points):
     return _guard(_reorder_shard, points, None, per_item=points)
 
 
+def _reslice_child(args):
+    """the same weight tensor encoded for several depth slicings in ONE process (what the scheduler does when it tries weight-buffering
+    schemes): every result must decode, range by range, to the weights of its own slicing"""
+    acc, kind, seqs = args
+    core.bind_repo()
+    from . import c08
+
+    probs = []
+    shared = {}
+    for sl in seqs:
+        req = dict(kind=kind, depth=64, blk=16, slices=list(sl), acc=acc, dt="int8", per_channel=True, wzp=0, k=(3, 3), ic=8, dil=(1, 1), wseed=3, bseed=0)
+        try:
+            w, s_, wt, bt, op = c08.encode(req, shared)
+            pr = c08.judge(req, w, s_, wt, bt)
+        except Exception as e:  # noqa
+            pr = ["encode failed: %s: %s" % (type(e).__name__, str(e)[:120])]
+        probs += ["slicing %s after %s: %s" % (list(sl), [list(x) for x in seqs[:seqs.index(sl)]], p_) for p_ in pr[:2]]
+    return probs
+
+
+RESLICE = [[(0, 16, 48, 64), (0, 16, 32, 48, 64)], [(0, 16, 32, 48, 64), (0, 16, 48, 64)], [(0, 32, 64), (0, 32, 48, 64), (0, 64)], [(0, 16, 64), (0, 16, 32, 64), (0, 16, 32, 48, 64)]]
+
+
 def replay(ctx, case):
+    if case.get("kind") == "reslice":
+        from .. import isolate
+
+        res, _ = isolate.run_forked(_reslice_child, ((case["acc"], case["op"], [tuple(x) for x in case["seqs"]]),), timeout=300)
+        return list(res[1]) if res[0] == "ok" else ["child %s" % (res[:3],)]
     if "h" in case:
         from .. import netrun
         from . import c01
@@ -412,6 +440,17 @@ def run(ctx):
         exhaustive=True,
         bound="short alphabets exhaustive to the stated lengths; longer sequences by enumerated families",
     )
+    # (R) re-slicing histories
+    from .. import isolate
+
+    for acc in ("ethos-u55-128", "ethos-u65-512"):
+        for kind in ("conv", "depthwise"):
+            for seqs in RESLICE:
+                res, _ = isolate.run_forked(_reslice_child, ((acc, kind, seqs),), timeout=300)
+                ctx.count("reslice_histories")
+                pr = list(res[1]) if res[0] == "ok" else ["child %s" % (res[:3],)]
+                if pr:
+                    ctx.violation("reslice|%s|%s|%s" % (acc, kind, "+".join("-".join(map(str, x)) for x in seqs)), "; ".join(pr[:3]), dict(kind="reslice", acc=acc, op=kind, seqs=[list(x) for x in seqs]))
     # (N) the whole path from a .tflite file: reader layout change ([out,in]/OHWI -> [in,out]/HWIO), graph rewrites, slicing, reorder and encode.
     # Every weight-bearing operator of the compiled networks must find, through its WEIGHT registers, a stream that decodes to the SOURCE
     # model's weights in hardware order - decided by executing the stream (functional executor of C01) against the reference kernels.
